@@ -6,7 +6,7 @@
 (* verdict of every event is total: a set of failing clause names (empty = *)
 (* accepted) printed as <<"V", id, clauses>>.                              *)
 (***************************************************************************)
-EXTENDS Json, IOUtils, TLC, JSearch
+EXTENDS Json, IOUtils, TLC, JSearch, JArrays, JProcess
 
 Trace == JsonDeserialize(IOEnv.TRACE_FILE)
 Chunk == atoi(IOEnv.TRACE_CHUNK)
@@ -16,11 +16,31 @@ VARIABLE l
 TraceInit == l = 0
 TraceNext == \/ /\ l = 0
                 /\ l' \in {1 + c * Chunk : c \in 0..((N - 1) \div Chunk)}
-             \/ /\ l > 0 /\ l < N /\ l % Chunk # 0
+             \/ /\ l > 0 /\ l < N /\ Mod(l, Chunk) # 0
                 /\ l' = l + 1
 
 Verdict(e) ==
     CASE e.fn = "search" -> V_search(e)
+      [] e.fn = "oversample" -> V_oversample(e)
+      [] e.fn = "extend" -> V_extend(e)
+      [] e.fn = "append" -> V_append(e)
+      [] e.fn = "integral" -> V_integral(e)
+      [] e.fn = "sum_over" -> V_sum_over(e)
+      [] e.fn = "interval" -> V_interval(e)
+      [] e.fn = "average" -> V_average(e)
+      [] e.fn = "repeat" -> V_repeat(e)
+      [] e.fn = "repeat2" -> V_repeat2(e)
+      [] e.fn = "truncate" -> V_truncate(e)
+      [] e.fn = "slice_value" -> V_slice_value(e)
+      [] e.fn = "slice_index" -> V_slice_index(e)
+      [] e.fn = "truncate_index" -> V_truncate_index(e)
+      [] e.fn = "trend" -> V_trend(e)
+      [] e.fn = "linear_trend" -> V_linear_trend(e)
+      [] e.fn = "normalize" -> V_normalize(e)
+      [] e.fn = "shiftscale" -> V_shiftscale(e)
+      [] e.fn = "interp" -> V_interp(e)
+      [] e.fn = "interp_env" -> V_interp_env(e)
+      [] e.fn = "winterp" -> V_winterp(e)
       [] OTHER -> {"machinery.unknown_fn"}
 
 Judge == l > 0 => PrintT(<<"V", Trace[l].id, Verdict(Trace[l])>>)
